@@ -859,7 +859,41 @@ def recurrence_rule(ctx, R):
     return n
 
 
+def no_element_patch_rule(ctx, R):
+    """R07.12 — the recurrences are whole-matrix linear algebra: predict / project / update / distance (and the vector
+    filter's wrappers) never rewrite single components of a state / residual / covariance in place (`r[2] = f(r[2])`,
+    `cov[(i, j)] = ..`).  A patched component (a wrapped angle residual, a clamped variance) makes the step something
+    else than the linear filter the normal form of R07.11 describes - and the expression builder that R07.11 reads does
+    not see in-place element writes, so their absence is a premise of that rule."""
+    n = 0
+    for K in (BOX, PT, VEC):
+        for m in ('predict', 'project', 'update', 'distance', 'initiate'):
+            for b in ctx.F.get(K + '::' + m):
+                ctx.read(b)
+                bad = []
+                for hb in [b] + all_closures(ctx.F, b):
+                    for c in hb.find_calls('index_mut', 'get_mut', 'iter_mut', 'column_mut', 'row_mut', 'fill', 'apply',
+                                           'swap_rows', 'swap_columns', 'set_row', 'set_column', 'fixed_view_mut',
+                                           'view_mut', 'as_mut_slice', 'get_unchecked_mut'):
+                        if c.args and c.args[0].get('k') in ('copy', 'move'):
+                            ty = hb.locals[c.args[0]['pl']['l']]
+                            if 'nalgebra::Matrix' in ty or 'KalmanState' in ty:
+                                bad.append(c)
+                n += 1
+                ctx.check(not bad, R, b, '%s:%s-no-element-patching' % (K.rsplit('::', 1)[-1], m), '',
+                          '%s::%s rewrites single components of a vector / matrix in place (%s): the step is no longer the '
+                          'linear recurrence (e.g. a residual component passed through a non-linear function)' % (
+                              K.rsplit('::', 1)[-1], m, sorted({c.name for c in bad})), bad[0].ln if bad else '')
+    return n
+
+
 def run(ctx):
+    ctx.rule('R07.12', 'no in-place element writes in initiate / predict / project / update / distance (premise of R07.11); '
+                       'the gating distance is computed by a filter built from the weights of the track it is measured for')
+    n = no_element_patch_rule(ctx, 'R07.12')
+    import metriclib as _M
+    n += _M.rule_positional(ctx, 'R07.12')
+    ctx.floor('R07.12', n, 20)
     ctx.rule('R07.11', 'recurrences as matrix expressions equal the textbook ones (predict, project, update, distance; '
                        'normal form with transpose / inverse)')
     ctx.evaluated('R07.11', recurrence_rule(ctx, 'R07.11'), 14)
